@@ -19,7 +19,7 @@ PID = "C04"
 def trailing(text):
     """candidate truncation lengths at text level: closers and a closing back-quote"""
     n = 0
-    while n < len(text) and text[len(text) - 1 - n] in gen.CLOSERS + "`":
+    while n < len(text) and text[len(text) - 1 - n] in gen.CLOSERS + "`«»":
         n += 1
     return n
 
@@ -44,7 +44,9 @@ def cases(tier, rng):
     extra = ["`ab`", "[`a`", "λ`a;`;", "(k)", "‛a]", "[1|`x`]", "⟨`a`|`b`⟩", "@f:a|`q`;",
              "\\]", "[\\]]", "«ab«]", "»ab»)", "⁺]", "⁺])", "#]\n]", "[#]", "→a;", "[→a]",
              "λ2|`;`;", "[1|2|3|4]", "{1|2}", "(a|b)", "ƛµ';;;", "v[1]", "₌[1][2]", "≬[1](2){3}",
-             "@f:1:2|⟨1|2⟩;", "[(({⟨λƛ'µ@f|1;;;;⟩}))]"]
+             "@f:1:2|⟨1|2⟩;", "[(({⟨λƛ'µ@f|1;;;;⟩}))]",
+             "[1|«ab«]", "(»12»)", "λ«x«;", "⟨»a»⟩", "`a\\``", "`a\\n`", "[1|`say \\`hi\\``]", "λ`x\\\\`;",
+             "`\\``", "[`a\\`b`]", "{`\\n`}", "⟨`a`|`b\\``⟩", "@f|`\\``;", "«a«", "»a»", "‛ab", "[‛a`]"]
     for p in extra:
         for k in range(1, trailing(p) + 1):
             out.append((p, k))
